@@ -73,7 +73,7 @@ EXCLUDED = {
     # diagonalisation in Wave.step_fourier; it depends on self.wavenumber_norm (a stored array, not on the argument) and is
     # meaningless without the change of basis.  The wave stepper is modelled as a whole (Steppers/Linear.v wave_mode) and tied by
     # the mode-by-mode correspondence (c) of harness/props/c01.py.
-    "Wave": "diagonalised 2x2 system; covered by wave_mode + correspondence",
+    "Wave": "diagonalised 2x2 system; translated as a whole step by harness/translate/wave.py (C01_code_wave_step_is_model)",
 }
 
 # ---- kinds -----------------------------------------------------------------------------------------------
